@@ -541,6 +541,24 @@ def modules():
     return _LOADED['env'], _LOADED['queue']
 
 
+def scheduler_module():
+    """A private copy of valjean/cosette/scheduler.py whose default back-end is the privately loaded
+    (controlled) QueueScheduling: ``Scheduler(hard_graph=...)`` without a back-end, as most callers
+    write it.  Back-end objects that the module itself keeps (a shared default instance, say) are
+    replaced by controlled ones with the same number of workers."""
+    if 'scheduler' not in _LOADED:
+        envmod, qmod = modules()
+        smod = load_private('valjean.cosette.scheduler', 'valjean/cosette/scheduler.py')
+        real_backend = smod.QueueScheduling
+        smod.QueueScheduling = qmod.QueueScheduling
+        smod.Env = envmod.Env
+        for name, val in list(vars(smod).items()):
+            if isinstance(val, real_backend) and not isinstance(val, type):
+                setattr(smod, name, qmod.QueueScheduling(val.n_workers))
+        _LOADED['scheduler'] = smod
+    return _LOADED['scheduler']
+
+
 def run_controlled(schedule, body, max_steps=20000, clock_start=0, ticks=None, spurious=None):
     """Run ``body()`` as the master thread under ``schedule``.
 
